@@ -130,6 +130,10 @@ def ex_sbp(repo):
 
 
 def obligations():
+    return _own() + common.shared('C01', ['O1.4-mmr', 'O1.4-mmr-t'], 'O2', 'the last header of a blocks / transactions proof reply is tied to the proved state by its HASH only, which does not cover the parent chain root that travels beside it: verify_mmr_proof itself must bind that root to the header (patched_is_valid)')
+
+
+def _own():
     return [
         KModelOb('O2.6-body-semantic', 'syncarm', 'send_block_ok', 'SendBlock arm (real text) over a model of ckb-types Block / BlockView (into_view RESETS the header roots, '
                  'into_view_without_reset_header does not): a block whose body is not committed by its header is rejected and nothing is stored; only proved '
